@@ -69,20 +69,22 @@ def run(r, case_id, finding_keepzero=True, **kw):
     return probs
 
 
-def options(tier, k, allow_random):
+def options(tier, k, allow_random, light=False):
     """dx x relative_dx x seed mode x keep_zero_structure in full; verbose, stale sensitivities, repeated call, bare signal argument, earlier response rotate"""
     modes = ['use_df', 'ones'] + (['random'] if allow_random else [])
     dxs = (10, 20) if tier == 'quick' else (6, 10, 20, 26)
     j = k
     for dx_exp, rel, mode, kz in itertools.product(dxs, (False, True), modes, (True, False)):
         j += 1
-        yield dict(dx_exp=dx_exp, relative=rel, seedmode=mode, keep_zero=kz, verbose=j % 2 == 0, pollute=j % 3 == 0, ncalls=2 if j % 4 == 0 else 1, bare=j % 5 == 0, preresponse=j % 7 == 0, rngseed=j)
+        if light and tier == 'quick' and dx_exp == 10 and j % 3 != 0:   # networks: the coarse step only in every third configuration
+            continue
+        yield dict(dx_exp=dx_exp, relative=rel, seedmode=mode, keep_zero=kz, verbose=j % 2 == 0, pollute=j % 3 == 0, ncalls=2 if j % 4 == 0 else 1, bare=j % 5 == 0, preresponse=j % 7 == 0, rngseed=j, reuse_out=j % 2 == 1, keep_alloc=j % 6 == 0)
 
 
 @bound('single fixture modules with exact dyadic Jacobians: linear and quadratic (with mixed second derivatives) vector maps, 2 inputs (vector + Python float) x 2 outputs (vector + Python float) with '
        '5 fromsig/tosig choices, 2x3 matrix input (C and Fortran order), complex holomorphic, complex non-holomorphic (|x|^2, c*conj(x)), real -> complex, sparse-matrix output; zero entries present; '
        'dx = 2^-10, 2^-20 [thorough: 2^-6..2^-26] x relative_dx x seeds {use_df, ones, random} x keep_zero_structure; verbose, stale sensitivities before the call, a second call on the same objects, '
-       'bare signal argument and an earlier response() rotate')
+       'bare signal argument, an earlier response(), modules that overwrite their output arrays in place and input signals with keep_alloc rotate')
 def modules_correct(r, tier, seed):
     for k, cid in enumerate(MODULE_CASES):
         for kw in options(tier, k + seed, cid not in NO_RANDOM):
@@ -97,10 +99,10 @@ def scalars(r, tier, seed):
 
 
 @bound('networks: 3-module chain with 11 fromsig/tosig choices (source, intermediate, several outputs, default, sliced, output upstream of the input), diamond (two consumers of the input), '
-       'module in front of the first consumer (its state must be computed first), complex chain; same option grid (random seeds only where the seeded signals are terminal)')
+       'module in front of the first consumer (its state must be computed first), complex chain; same option grid (random seeds only where the seeded signals are terminal; quick tier: dx = 2^-10 only in every third configuration)')
 def networks(r, tier, seed):
     for k, cid in enumerate(NETWORK_CASES):
-        for kw in options(tier, k + seed + 1, cid not in NO_RANDOM):
+        for kw in options(tier, k + seed + 1, cid not in NO_RANDOM, light=True):
             run(r, cid, **kw)
 
 
@@ -122,6 +124,22 @@ def modules_wrong(r, tier, seed):
                 run(r, cid, wrong=wrong, dx_exp=20, relative=rel, seedmode=mode, keep_zero=(k % 3 != 0), verbose=k % 2 == 0, pollute=k % 5 == 0)
 
 
+INEXACT_CASES = ['lin_vec', 'quad_vec', 'two_io', 'matrix', 'matrix:F', 'cplx_holo', 'cplx_nonholo', 'sparse_out', 'scal:float', 'scal:0d', 'scal_cplx:0d', 'chain:a_d', 'chain:b_d', 'diamond:x_c',
+                 'pre_module:xp_y', 'chain_cplx:x_c', 'slice:in', 'slice:fancy', 'slice:two']
+
+
+@bound('19 of the fixtures with data 1.1 * (dyadic values) and dx = 1.1 * 2^-k, k in {1, 20} [thorough: 0, 1, 2, 10, 20, 26, 30] (the large steps cross a binade, so x + h - h != x in floating point) x relative_dx x seeds {use_df, random}: '
+       'states must be restored bit for bit; reported numbers compared with tolerance 1e-5 (round-off of the difference quotient)')
+def restore_inexact(r, tier, seed):
+    k = seed
+    for cid in INEXACT_CASES:
+        for dx_exp, rel, mode in itertools.product((1, 20) if tier == 'quick' else (0, 1, 2, 10, 20, 26, 30), (False, True), ('use_df', 'random')):
+            if mode == 'random' and cid in NO_RANDOM:
+                continue
+            k += 1
+            run(r, cid, dx_exp=dx_exp, relative=rel, seedmode=mode, inexact=True, keep_zero=k % 2 == 0, verbose=False, rngseed=k, reuse_out=k % 3 == 0)
+
+
 @bound('input signal holding a scipy.sparse matrix (2x2, 3 stored entries), y = S v, dx = 2^-20, keep_zero_structure in {True, False}', finding='C19-sparse-input')
 def sparse_input(r, tier, seed):
     for kz in (True, False):
@@ -131,4 +149,4 @@ def sparse_input(r, tier, seed):
              replay_code=REPLAY_HEAD + LIB + f"\nprobs = run_sparse_input(20, {kz})\nprint(probs)\nassert not probs, probs\n", finding='C19-sparse-input')
 
 
-CHECKS = [('modules_correct', modules_correct), ('scalars', scalars), ('networks', networks), ('slices', slices), ('modules_wrong', modules_wrong), ('sparse_input', sparse_input)]
+CHECKS = [('restore_inexact', restore_inexact), ('modules_correct', modules_correct), ('scalars', scalars), ('networks', networks), ('slices', slices), ('modules_wrong', modules_wrong), ('sparse_input', sparse_input)]
